@@ -115,6 +115,21 @@ pub fn check(tier: Tier) -> i32 {
 			});
 		}
 	}
+	// a smaller memtable on reopen than the one the log was written with (valid option change):
+	// segments, and single transactions, larger than the new memtable
+	let mut shrink_runs = 0u64;
+	for (sizes, reopen_memtable) in shrink_cases() {
+		stats.evaluations += 1;
+		shrink_runs += 1;
+		if let Some((class, what)) = shrink_scenario(&sizes, reopen_memtable) {
+			report.violations.push(crate::util::Violation {
+				class,
+				what,
+				replay: json!({"engine": "c07-shrink", "sizes": sizes, "reopen_memtable": reopen_memtable}),
+			});
+		}
+	}
+	completed.push(format!("reopen with a smaller memtable: all {shrink_runs} cases (1-3 commits with values of 20/1500/5000 B written under a 16 KiB memtable, reopened under 1/2/4 KiB)"));
 	report.set("evaluations", json!(stats.evaluations));
 	report.set("states", json!(stats.states.len().max(1)));
 	report.set("transitions", json!(stats.transitions.max(1)));
@@ -136,6 +151,76 @@ pub fn check(tier: Tier) -> i32 {
 		return code;
 	}
 	report.finish()
+}
+
+pub fn shrink_cases() -> Vec<(Vec<usize>, usize)> {
+	let sizes = [20usize, 1500, 5000];
+	let mut lists: Vec<Vec<usize>> = vec![];
+	for a in sizes {
+		lists.push(vec![a]);
+		for b in sizes {
+			lists.push(vec![a, b]);
+			for c in sizes {
+				lists.push(vec![a, b, c]);
+			}
+		}
+	}
+	let mut out = vec![];
+	for l in lists {
+		for m in [1024usize, 2048, 4096] {
+			out.push((l.clone(), m));
+		}
+	}
+	out
+}
+
+/// Commits written under a 16 KiB memtable, clean close without flush, reopen under a smaller
+/// memtable: must open, twice with the same content, and accept a probe commit that survives.
+pub fn shrink_scenario(sizes: &[usize], reopen_memtable: usize) -> Option<(String, String)> {
+	use crate::world::World;
+	let opt = OptSet::base("L2-memtable16k").levels(2).memtable_size(16384);
+	let r = crate::util::guarded(|| {
+		let mut w = World::new(opt.clone(), &PROBE).map_err(|e| ("open-error".to_string(), e))?;
+		for (i, size) in sizes.iter().enumerate() {
+			let mut v = format!("c{i}-").into_bytes();
+			v.resize(*size, b'v');
+			let key = format!("k{}", i % 2);
+			match w.commit(&[Write::set(key.as_bytes(), &v), Write::set(b"x", format!("x{i}").as_bytes())], surrealkv::Durability::Eventual) {
+				Ok(Ok(())) => {}
+				Ok(Err(e)) => return Err(("setup-commit-failed".to_string(), e)),
+				Err(e) => return Err(("machinery".to_string(), e)),
+			}
+		}
+		let expected = w.dump().map_err(|e| ("read-error".to_string(), e))?;
+		w.close().map_err(|e| ("close-error".to_string(), e))?;
+		w.opt.memtable = reopen_memtable;
+		w.open().map_err(|e| ("reopen-with-smaller-memtable-fails".to_string(), format!("open: {e}")))?;
+		let d1 = w.dump().map_err(|e| ("read-error".to_string(), e))?;
+		if d1 != expected {
+			return Err(("reopen-with-smaller-memtable-differs".to_string(), format!("{} keys before, {} after", expected.len(), d1.len())));
+		}
+		match w.commit(&[Write::set(b"probe", b"after-reopen")], surrealkv::Durability::Eventual) {
+			Ok(Ok(())) => {}
+			Ok(Err(e)) => return Err(("probe-commit-fails".to_string(), e)),
+			Err(e) => return Err(("machinery".to_string(), e)),
+		}
+		w.close().map_err(|e| ("close-error".to_string(), e))?;
+		w.open().map_err(|e| ("second-reopen-fails".to_string(), e))?;
+		let d2 = w.dump().map_err(|e| ("read-error".to_string(), e))?;
+		let mut want = expected.clone();
+		want.push((b"probe".to_vec(), b"after-reopen".to_vec()));
+		want.sort();
+		if d2 != want {
+			return Err(("second-reopen-differs".to_string(), format!("{} keys expected, {} found", want.len(), d2.len())));
+		}
+		Ok(())
+	});
+	match r {
+		Ok(Ok(())) => None,
+		Ok(Err((c, w))) if c == "machinery" => Some(("machinery".into(), w)),
+		Ok(Err((c, w))) => Some((c, format!("[written under a 16 KiB memtable: value sizes {sizes:?}; reopened under {reopen_memtable} B] {w}"))),
+		Err(p) => Some((format!("panic:{}", crate::props::norm_msg(&p)), p)),
+	}
 }
 
 /// A transaction larger than the memtable: commit may fail (with an error) or succeed; whatever
@@ -175,5 +260,35 @@ pub fn oversize_scenario(nbefore: usize, flush: bool) -> Option<(String, String)
 		Ok(Ok(())) => None,
 		Ok(Err((c, w))) => Some((c, format!("[L2-memtable1k, {nbefore} small commits, flush={flush}, then a 2000-byte value] {w}"))),
 		Err(p) => Some((format!("panic:{}", crate::props::norm_msg(&p)), p)),
+	}
+}
+
+/// Replay of the special scenarios (oversize transaction, reopen with a smaller memtable).
+pub fn replay(r: &serde_json::Value) -> i32 {
+	surrealkv::verif::set_forced_height(1);
+	let run = || -> Option<(String, String)> {
+		if r["engine"] == "c07-shrink" {
+			let sizes: Vec<usize> = r["sizes"].as_array().unwrap().iter().map(|x| x.as_u64().unwrap() as usize).collect();
+			shrink_scenario(&sizes, r["reopen_memtable"].as_u64().unwrap() as usize)
+		} else {
+			oversize_scenario(r["commits_before"].as_u64().unwrap_or(0) as usize, r["flush_before"].as_bool().unwrap_or(false))
+		}
+	};
+	let a = run();
+	let b = run();
+	if a.as_ref().map(|x| &x.0) != b.as_ref().map(|x| &x.0) {
+		eprintln!("machinery: replay not deterministic");
+		return 2;
+	}
+	match a {
+		Some((c, _)) if c == "machinery" => 2,
+		Some((c, t)) => {
+			println!("VIOLATION property=C07 replay=<this file>\n  class={c} {t}");
+			1
+		}
+		None => {
+			println!("replay passed: no violation");
+			0
+		}
 	}
 }
